@@ -29,10 +29,11 @@ pub fn gen_case(t: &mut Tape) -> Case {
     let mut src = String::from("#![allow(warnings)]\nuse crate::rt;\npub struct App;\n");
     let is_async = |i: usize| i < first_sync;
     // the entraited chain
+    let mut lts: Vec<bool> = vec![];
     for i in 0..depth {
         let a = is_async(i);
         let next_async = if i + 1 < depth { is_async(i + 1) } else { end_async };
-        let (next_trait, next_call) = if i + 1 < depth { (format!("F{}", i + 1), format!("deps.f{}(x + 1)", i + 1)) } else {
+        let (next_trait, next_call) = if i + 1 < depth { (format!("F{}", i + 1), format!("deps.f{}(x + 1@TAG{}@)", i + 1, i + 1)) } else {
             match end {
                 0 => ("Sized".to_string(), "x + 1".to_string()),
                 1 => ("Leaf".to_string(), "deps.leaf(x + 1)".to_string()),
@@ -45,11 +46,21 @@ pub fn gen_case(t: &mut Tape) -> Case {
         let q = if a { "async " } else { "" };
         let in_mod = t.chance(1, 4);
         let deps_form = if t.flip() { format!("deps: &impl {next_trait}") } else { "deps: &D".to_string() };
-        let g = if deps_form == "deps: &D" { format!("<D: {next_trait}>") } else { String::new() };
+        // some levels declare an explicit lifetime parameter (a borrowed argument that is only looked at)
+        let named_lt = t.chance(1, 3);
+        lts.push(named_lt);
+        let g = match (deps_form == "deps: &D", named_lt) {
+            (true, true) => format!("<'a, D: {next_trait}>"),
+            (true, false) => format!("<D: {next_trait}>"),
+            (false, true) => "<'a>".to_string(),
+            (false, false) => String::new(),
+        };
+        let extra_param = if named_lt { ", tag: &'a str" } else { "" };
+        let body = if named_lt { body.replacen("let r =", "let _n = tag.len(); let r =", 1) } else { body };
         if in_mod {
-            src.push_str(&format!("#[::entrait::entrait(pub F{i})]\npub mod m{i} {{\n    use super::*;\n    pub {q}fn f{i}{g}({deps_form}, x: u64) -> u64 {body}\n    pub fn unused{i}(_deps: &impl Sized) {{}}\n}}\n"));
+            src.push_str(&format!("#[::entrait::entrait(pub F{i})]\npub mod m{i} {{\n    use super::*;\n    pub {q}fn f{i}{g}({deps_form}, x: u64{extra_param}) -> u64 {body}\n    pub fn unused{i}(_deps: &impl Sized) {{}}\n}}\n"));
         } else {
-            src.push_str(&format!("#[::entrait::entrait(pub F{i})]\n{q}fn f{i}{g}({deps_form}, x: u64) -> u64 {body}\n"));
+            src.push_str(&format!("#[::entrait::entrait(pub F{i})]\n{q}fn f{i}{g}({deps_form}, x: u64{extra_param}) -> u64 {body}\n"));
         }
     }
     let eq = if end_async { "async " } else { "" };
@@ -67,23 +78,28 @@ pub fn gen_case(t: &mut Tape) -> Case {
     for i in 0..depth {
         let a = is_async(i);
         let next_async = if i + 1 < depth { is_async(i + 1) } else { end_async };
-        let next_call = if i + 1 < depth { format!("g{}(x + 1)", i + 1) } else if end == 0 { "x + 1".to_string() } else { "g_end(x + 1)".to_string() };
+        let next_call = if i + 1 < depth { format!("g{}(x + 1@TAG{}@)", i + 1, i + 1) } else if end == 0 { "x + 1".to_string() } else { "g_end(x + 1)".to_string() };
         let aw = if next_async && !(i + 1 >= depth && end == 0) { ".await" } else { "" };
         let yield_ = if a { "rt::yield_once().await; " } else { "" };
         let q = if a { "async " } else { "" };
-        src.push_str(&format!("{q}fn g{i}(x: u64) -> u64 {{ let v = vec![x, x]; {yield_}let r = {next_call}{aw}; r + v[1] }}\n"));
+        let (gl, gp, gb) = if lts[i] { ("<'a>", ", tag: &'a str", "let _n = tag.len(); ") } else { ("", "", "") };
+        src.push_str(&format!("{q}fn g{i}{gl}(x: u64{gp}) -> u64 {{ let v = vec![x, x]; {yield_}{gb}let r = {next_call}{aw}; r + v[1] }}\n"));
     }
     if end != 0 {
         src.push_str(&format!("{eq}fn g_end(x: u64) -> u64 {{ let v = vec![x]; {ey}v[0] * 2 }}\n"));
     }
+    for (k, has) in lts.iter().enumerate() {
+        src = src.replace(&format!("@TAG{k}@"), if *has { ", \"tag\"" } else { "" });
+    }
+    let top_tag = if lts[0] { ", \"tag\"" } else { "" };
     let top_async = is_async(0);
     let call = |e: &str| if top_async { format!("rt::block_on_pinned({e})") } else { e.to_string() };
     src.push_str(&format!(
         "pub fn run() -> Vec<String> {{\n    let mut fails = vec![];\n    let app = ::entrait::Impl::new(App);\n    // warm-up (lazy statics, thread-locals)\n    let w1 = {};\n    let w2 = {};\n    let a0 = rt::allocs();\n    let plain = {};\n    let a1 = rt::allocs();\n    let via = {};\n    let a2 = rt::allocs();\n    rt::expect_eq(&mut fails, \"result of the trait chain vs the plain chain\", &via, &plain);\n    if a1 - a0 == 0 {{ fails.push(\"HARNESS: the plain chain did not allocate\".to_string()); }}\n    rt::expect_eq(&mut fails, \"heap allocations of the trait chain vs the plain chain\", &(a2 - a1), &(a1 - a0));\n    fails\n}}\n",
-        call("g0(5)"),
-        call("app.f0(5)"),
-        call("g0(7)"),
-        call("app.f0(7)")
+        call(&format!("g0(5{top_tag})")),
+        call(&format!("app.f0(5{top_tag})")),
+        call(&format!("g0(7{top_tag})")),
+        call(&format!("app.f0(7{top_tag})"))
     ));
     let mut classes = vec![["end:plain_fn", "end:leaf_trait", "end:impl_block"][end]];
     if any_async {
@@ -91,6 +107,9 @@ pub fn gen_case(t: &mut Tape) -> Case {
     }
     if depth >= 2 {
         classes.push("depth>=2");
+    }
+    if lts.iter().any(|b| *b) {
+        classes.push("explicit_lifetime_parameter");
     }
     let summary = format!("chain depth {depth}, async levels {first_sync}, end {}{}", ["entraited fn", "statically delegated leaf trait", "statically delegated impl block"][end], if end_async { " (async)" } else { "" });
     Case { src, summary, nontrivial: any_async || depth >= 2, classes }
